@@ -154,14 +154,17 @@ def seeker_reach(s0: int, z0: int, t1: int, d2: int, prog: int) -> bool:
 
 
 def _seeker2(what, s0, z0, t, prog, skip):
-    """obj0 is LOOSE when the reader starts; another client packs everything compressed and cleans at observation t of
-    the reader (between its index lookup and its opening of the loose file: the reader's second-chance look-up then
-    serves the object from the pack); the stream must still behave like an in-memory file, seeks from the end included."""
+    """obj0 and obj1 are LOOSE when the reader starts its bulk call; another client packs everything compressed and cleans
+    at observation t of the reader (after its index look-up): the second-chance look-up then serves the objects from the
+    pack; each stream must still behave like an in-memory file over ITS object, seeks from the end included, and nothing
+    stays open afterwards."""
     w = make_world(10**9)
     try:
         w.set_zlen(0, s0, z0)
+        w.set_zlen(1, 9, 5)
         w.put_loose(0, s0)
-        k0 = w.key(0, s0)
+        w.put_loose(1, 9)
+        objs = objs_map(w, [(0, s0), (1, 9)])
         other = w.new_handle()
 
         def pack_and_clean():
@@ -171,29 +174,32 @@ def _seeker2(what, s0, z0, t, prog, skip):
             other.clean_storage()
 
         w.at(t, 'call', pack_and_clean)
-        want = w.content(0, s0)
-        with w.c.get_objects_stream_and_meta([k0], skip_if_missing=skip) as triplets:
-            n = 0
-            ok = True
+        n = 0
+        ok = True
+        keep = []
+        with w.c.get_objects_stream_and_meta(list(objs), skip_if_missing=skip) as triplets:
             for key, s, meta in triplets:
                 n += 1
-                if key != k0 or s is None or meta.size != s0:
+                i, size = objs[key]
+                want = w.content(i, size)
+                if s is None or meta.size != size:
                     return False
+                keep.append(s)  # the caller keeps a reference to the stream
                 if prog == 0:
                     end = s.seek(0, 2)
                     s.seek(0)
-                    ok = end == s0 and s.read() == want
+                    ok = ok and end == size and s.read() == want
                 elif prog == 1:
                     first = s.read(1)
                     s.seek(-1, 1)
-                    ok = first == want[:1] and s.read() == want
+                    ok = ok and first == want[:1] and s.read() == want
                 else:
                     s.seek(-1, 2)
-                    ok = s.read() == want[s0 - 1 :] and s.tell() == s0
+                    ok = ok and s.read() == want[size - 1 :] and s.tell() == size
         other.close()
         if what == 'reach':
-            return not (len(w.image().rows()) == 1 and ok)
-        return ok and n == 1
+            return not (len(w.image().rows()) == 2 and ok)
+        return ok and n == 2 and w.open_fds() == 0
     finally:
         w.cleanup()
 
